@@ -17,3 +17,14 @@ impl Corpus {
     self.all().into_iter().filter(|(_, t)| t.len() <= max_bytes).collect()
   }
 }
+
+/// The reproducers of defects found earlier (/verif/findings/*.sam): single-module programs with a
+/// `class Main { function main(): unit }`, kept as a fixed regression workload.
+pub fn regressions() -> Vec<(String, String)> {
+  let dir = format!("{}/findings", crate::evidence::VERIF);
+  let mut names: Vec<String> = std::fs::read_dir(&dir)
+    .map(|d| d.filter_map(|e| e.ok()).map(|e| e.file_name().to_string_lossy().to_string()).filter(|n| n.ends_with(".sam")).collect())
+    .unwrap_or_default();
+  names.sort();
+  names.into_iter().filter_map(|n| std::fs::read_to_string(format!("{dir}/{n}")).ok().map(|t| (n, t))).collect()
+}
